@@ -508,6 +508,23 @@ func streamEnvAPI(o *Out, r *rand.Rand, n int, thorough bool) {
 			}
 			return err
 		}},
+		{"a scope holding a struct value with storage of its own; Copy / DeepCopy; a store through the copy's value", func(e *env.Env) interface{} {
+			type rec struct{ A int64 }
+			_ = e.DefineValue("s", reflect.New(reflect.TypeOf(rec{})).Elem())
+			child := e.NewEnv()
+			for i, c := range []*env.Env{e.Copy(), child.DeepCopy()} {
+				v, err := c.GetValue("s")
+				if err != nil {
+					return "copy lost the binding"
+				}
+				v.Field(0).SetInt(int64(5 + i))
+				orig, _ := e.GetValue("s")
+				if orig.Field(0).Int() != 0 {
+					return "copy shares the struct"
+				}
+			}
+			return nil
+		}},
 		{"NewModule(m); Define(a, 1) in it; GetEnvFromPath([m a])", func(e *env.Env) interface{} { m, _ := e.NewModule("m"); _ = m.Define("a", 1); _, err := e.GetEnvFromPath([]string{"m", "a"}); return err }},
 		{"DefineType(T, nil); Type(T); GetTypeSymbols; String", func(e *env.Env) interface{} { _ = e.DefineType("T", nil); _, _ = e.Type("T"); e.GetTypeSymbols(); return e.String() }},
 		{"DefineReflectType(T, nil); Type(T)", func(e *env.Env) interface{} { _ = e.DefineReflectType("T", nil); t, err := e.Type("T"); return fmt.Sprint(t, err) }},
@@ -533,6 +550,8 @@ func streamEnvAPI(o *Out, r *rand.Rand, n int, thorough bool) {
 			o.Sum.Hist["host-request"]++
 			if r := c.run(e); r == "nil scope without an error" {
 				o.Fail(Failure{Oracle: "invalid-request-is-an-error", Key: "env-nil-scope", Input: c.name, Detail: "GetEnvFromPath returned (nil, nil)"})
+			} else if r == "copy shares the struct" || r == "copy lost the binding" {
+				o.Fail(Failure{Oracle: "copy-is-independent", Key: "env-copy-shares-struct", Input: c.name, Detail: fmt.Sprint(r, ": a store into the struct value bound in the copy shows in the original scope")})
 			}
 			// the scope is still usable
 			if err := e.Define("after", int64(1)); err != nil {
